@@ -22,7 +22,7 @@ for i in ids:
         evidence_file='/verif/evidence/%s.json' % i,
         replay_cmd_template='./check %s --replay {path}' % i,
         engine='lean4-proof+correspondence',
-        level_claimed=dict(category='proof', text=c.get('level_text', 'Lean 4 theorems about an executable model, for all inputs/histories the property quantifies over; the model is tied to the current source by the translator (tables/constants, regenerated every run) and by a differential correspondence check (hand-written parts) in both overflow-check builds.'), design_ref=c.get('design_ref', 'DESIGN.md §5 ' + i)),
+        level_claimed=dict(category='proof', text=c.get('level_text', 'Lean 4 theorems about an executable model, for all inputs/histories the property quantifies over; the model is tied to the current source by the translator (tables, constants, field lists of the state structs and the public API surface, regenerated every run) and by a differential correspondence check (hand-written parts) in both overflow-check builds.'), design_ref=c.get('design_ref', 'DESIGN.md §5 ' + i)),
         level_note=c.get('level_note', 'Trusted: Lean kernel; axioms propext/Classical.choice/Quot.sound only; translator + correspondence harness (agreement of model and code is established on explored inputs only); see DESIGN.md §4.'),
         technique=c.get('technique', 'Lean 4 proof over executable model + translator/correspondence tie'),
     ))
